@@ -538,7 +538,61 @@ def r19_4(ctx: Ctx) -> None:
         raise AnalysisError(f"{qual}: the shifting sort key for spanning regions was not found")
 
 
+def r19_7(ctx: Ctx) -> None:
+    """ an origin-crossing area whose core does not cross: which neighbourhood crosses the origin is decided by where the core
+        lies relative to the area's own pre-origin part, for any neighbourhood sizes """
+    qual = "adjust_cross_origin_area"
+    func = ctx.fn(AP, qual, inline=True)
+    cfg = CFG(func)
+    feat = func.args.args[1].arg
+    length = func.args.args[3].arg if len(func.args.args) > 3 else "length"
+    mapping = {f"{feat}.core_start": "c_s", f"{feat}.core_end": "c_e", f"{feat}.start": "a_s", f"{feat}.end": "a_e",
+               f"{feat}.location.parts[0].start": "a_s", length: "L"}
+    # the core lies inside the area, which crosses the origin (a_e < a_s); the core itself does not cross
+    pre = parse("0 <= a_e and a_e < a_s and a_s < L and 0 <= c_s and c_s < c_e and c_e <= L and "
+                "((c_s >= a_s) or (c_e <= a_e))")
+    right = [n for n in walk_local(func) if isinstance(n, (ast.AugAssign, ast.Assign))
+             and txt(n.targets[0] if isinstance(n, ast.Assign) else n.target).endswith(".neighbouring_end")
+             and (f"{feat}.core_start > {feat}.core_end", False) in {(txt(e), t) for e, t in path_facts(cfg, n)}
+             and not any(isinstance(m, (ast.AugAssign, ast.Assign)) and txt(m.targets[0] if isinstance(m, ast.Assign) else m.target).endswith(".start")
+                         and {(txt(e), t) for e, t in path_facts(cfg, m)} == {(txt(e), t) for e, t in path_facts(cfg, n)}
+                         and "extra" not in txt(m.targets[0] if isinstance(m, ast.Assign) else m.target)
+                         for m in walk_local(func))]
+    if not right:
+        ctx.cannot("R19.7", AP, func, qual, "side of the core", "the branch for 'only the right neighbourhood crosses' was not found")
+        return
+
+    class ByText(ast.NodeTransformer):
+        def generic_visit(self, node):  # noqa: N802
+            if isinstance(node, ast.expr) and txt(node) in mapping:
+                return ast.Name(id=mapping[txt(node)], ctx=ast.Load())
+            return super().generic_visit(node)
+    from ..astutil import clone
+    node = right[0]
+    conds = [e if t else ast.UnaryOp(op=ast.Not(), operand=e) for e, t in path_facts(cfg, node)
+             if "region_crosses_origin" not in txt(e) and "hasattr" not in txt(e) and txt(e) != f"{feat}.core_start > {feat}.core_end"
+             and "crosses_origin()" not in txt(e)]
+    if not conds:
+        ctx.cannot("R19.7", AP, node, qual, "side of the core", "no test decides the branch")
+        return
+    cond = conds[0] if len(conds) == 1 else ast.BoolOp(op=ast.And(), values=conds)
+    try:
+        renamed = ast.fix_missing_locations(ByText().visit(clone(cond)))
+        ok, cex, _ = decide(renamed, parse("c_s >= a_s"), pre=pre)
+    except OutsideFragment as err:
+        ctx.cannot("R19.7", AP, node, qual, "side of the core", str(err))
+        return
+    ctx.ob("R19.7", AP, node, qual, "side of the core", ok,
+           "only the right neighbourhood crosses the origin exactly when the core lies in the area's pre-origin part "
+           "(core start >= area start), whatever the sizes of the two neighbourhoods",
+           detail="" if ok else f"differs at {cex}: a sideloaded protocluster with core [300:450) and neighbourhoods 100 / 850 on a ring of 1200 "
+           "(area join{[200:1200),[0:100)}) is drawn with its core at 1500..1650, outside its extent 200..1300",
+           form=txt(cond))
+
+
 def run(ctx: Ctx) -> None:
+    ctx.rule("R19.7", "which neighbourhood of a split area crosses the origin is decided from the core's side", floor=1)
+    r19_7(ctx)
     ctx.rule("R19.1", "exactly-once: packing loop, converted collections, per-feature helper", floor=8)
     ctx.rule("R19.2", "Area.offset shifts every coordinate field; clone copies all and shares the group", floor=3)
     ctx.rule("R19.3", "post-origin areas of a spanning region are shifted by the record length, chosen by containment", floor=5)
